@@ -1,6 +1,6 @@
 (* C04 — one-shot runs terminate: no lost wake-up, no deadlock, whatever the graph.
    Property theorems only; proofs are in Proofs/SysWitness.v, Proofs/SysRoot.v, Proofs/SysLive*.v, Proofs/Potential.v, Proofs/SysBound.v. *)
-From Zinoma.Proofs Require Import SysWitness SysLive4 SysTerm SysBound.
+From Zinoma.Proofs Require Import SysWitness SysLive4 SysTerm SysBound SysQueue.
 
 (* The pinned handlers (before the FX1 repair, fx1 = false) lose a wake-up: `svc` service, `usesvc` build depending on it,
    `zinoma usesvc svc`. The schedule ends in a state where nothing can happen any more, no script failed, and the root is
@@ -106,3 +106,25 @@ Example C04_any_merge_of_the_senders_streams :
      bool_decide (is_Some (exec true false s (LDeliverAt 3%N 1 true))) &&
      bool_decide (exec true false s (LDeliverAt 3%N 2 true) = None)) = true.
 Proof. apply witness_intro. vm_compute. reflexivity. Qed.
+
+(* QUEUES FILLING UP (Model/SysQ.v: the same actors, the output channel and the inboxes with their capacities, handlers sending
+   their outputs one by one, the root relaying them one by one).  With the output channel unbounded (the repair FX2), whatever
+   the capacity of the inboxes (at least 1), the graph and the state: whenever something is left to send, to relay or to handle,
+   some step is possible — a full queue never blocks the engine for ever. *)
+Theorem C04_no_capacity_deadlock :
+  forall (fx1 : bool) (capI : nat), 1 <= capI ->
+  forall s : qsys, qwork s -> exists l, is_Some (qexec fx1 capI None s l).
+Proof. exact no_capacity_deadlock. Qed.
+
+(* The pinned code bounded the output channel as well (defect D3, fans wider than the capacity hang): with capacities 1 and
+   1 an aggregate over five targets reaches a state in which the root waits for room in the inbox of 9 while 9, inside its
+   handler, waits for room in the output channel: no step is possible although outputs are still to be sent and relayed.  The
+   same schedule with the output channel unbounded ends in a state that is not stuck. *)
+Theorem C04_bounded_output_channel_refuted :
+  exists s, qrun true 1 (Some 1) q_init q_schedule = Some s /\
+            (qstuck true 1 (Some 1) s && bool_decide (pend s 9%N <> []) && bool_decide (qroot s <> None)) = true.
+Proof. exact bounded_output_channel_deadlocks. Qed.
+
+Theorem C04_unbounded_output_channel_repaired :
+  exists s, qrun true 1 None q_init q_schedule = Some s /\ qstuck true 1 None s = false.
+Proof. exact unbounded_output_channel_goes_on. Qed.
